@@ -193,6 +193,9 @@ pub struct Faults {
     pub oracle_rejects: u32,
     pub tf_rejects: u32,
     pub abort_at_access: Option<u64>,
+    /// 1: next transfer response has no data, 2: garbage data
+    pub reply_data_mode: u8,
+    pub fired_reply_data: u64,
     pub fired_ibc_submit: u64,
     pub fired_oracle: u64,
     pub fired_tf: u64,
@@ -722,7 +725,14 @@ impl World {
             return Ok(None);
         }
         if type_url == "/ibc.applications.transfer.v1.MsgTransfer" {
-            return self.ibc_send(contract, value).map(Some);
+            let data = self.ibc_send(contract, value)?;
+            if self.faults.reply_data_mode == 1 {
+                self.faults.reply_data_mode = 0;
+                self.faults.fired_reply_data += 1;
+                self.fault_hit_in_tx = true;
+                return Ok(None);
+            }
+            return Ok(Some(data));
         }
         if let Some(name) = type_url.strip_prefix(tfp) {
             if self.faults.tf_rejects > 0 {
@@ -909,6 +919,12 @@ impl World {
             tx_no: self.st.tx_no,
         });
         self.st.log.push(Effect::IbcSend { pkt: id });
+        if self.faults.reply_data_mode == 2 {
+            self.faults.reply_data_mode = 0;
+            self.faults.fired_reply_data += 1;
+            self.fault_hit_in_tx = true;
+            return Ok(vec![0xff, 0xff, 0xff, 0xff]);
+        }
         Ok(pb_encode(&[PbField { no: 1, val: PbVal::Varint(seq) }]))
     }
 
